@@ -1,5 +1,7 @@
 """C20 — the instruction trace shows the fetched bytes and their Y86-64 disassembly."""
 
+from props import C18
+
 THEOREM_MODULES = ["Hcl.Theorems.C20", "Hcl.Tie.Disasm"]
 THEOREMS = {"Hcl.Tie.Disasm": ["Tie.Disasm.disasmRegisters", "Tie.Disasm.disasmIfuns", "Tie.Disasm.disasmText"], "Hcl.Theorems.C20": ["C20_disasm", "C20_invalid", "C20_line", "rdLE_byte", "disassemble_len_le", "traceLine_bytes"]}
 
@@ -32,4 +34,7 @@ def judge(req, impl, model, spec):
 def streams(tier, seed):
     q = tier == "quick"
     return [{"name": "disasm", "stream": "disasm", "count": 5 if q else 40, "judge": judge},
-            {"name": "trace", "stream": "trace", "count": 3000 if q else 100000, "judge": judge}]
+            {"name": "trace", "stream": "trace", "count": 3000 if q else 100000, "judge": judge},
+            # under -d / --trace-assignments with the instruction line switched off, no `pc = ...` line may appear (data-memory reads
+            # are not instruction fetches): the lines of every cycle against the message model, as in C18
+            {"name": "messages", "stream": "messages", "count": 200 if q else 6000, "judge": C18.judge_messages}]
